@@ -11,12 +11,13 @@ SCALARS = ('type', 'name', 'id', 'asset', 'defense_status', 'existence_status', 
 
 
 def dict_content(o, h, d0, d1):
-    """dict d1 (post heap) has the keys of d0 (pre heap), equal scalar values, and fresh containers of the same class where d0 has containers"""
+    """dict d1 (post heap) has the keys of d0 (pre heap), equal scalar values, and fresh containers of the same class where d0 has containers
+    (a value that is a reference to a non-container object is copied by that object's own protocol: outside this claim)"""
     k = z3.Const('k!dc2', Val)
     return z3.And(FA([k], h.has(d1, k) == o.has(d0, k), [h.has(d1, k)]),
-                  FA([k], z3.Implies(o.has(d0, k), z3.If(is_VRef(o.val(d0, k)),
+                  FA([k], z3.Implies(o.has(d0, k), z3.If(z3.And(is_VRef(o.val(d0, k)), z3.Or(o.cls(v_a(o.val(d0, k))) == CLS_LIST, o.cls(v_a(o.val(d0, k))) == CLS_DICT)),
                                                          z3.And(is_VRef(h.val(d1, k)), v_a(h.val(d1, k)) >= o.alloc, h.cls(v_a(h.val(d1, k))) == o.cls(v_a(o.val(d0, k)))),
-                                                         h.val(d1, k) == o.val(d0, k))), [h.val(d1, k)]),
+                                                         z3.Implies(z3.Not(is_VRef(o.val(d0, k))), h.val(d1, k) == o.val(d0, k)))), [h.val(d1, k)]),
                   h.size(d1) == o.size(d0))
 
 
@@ -42,7 +43,7 @@ def install(reg: Registry):
             ('fresh-node', z3.Implies(z3.Not(was), z3.And(fresh(r), h.cls(r) == class_id(NODE)))),
             ('scalars', z3.Implies(z3.Not(was), z3.And(*[h.f(f, r) == o.f(f, me) for f in SCALARS]))),
             ('links-empty', z3.Implies(z3.Not(was), z3.And(*[z3.And(fresh(h.f(f, r)), h.bagof(h.f(f, r)) == EMPTY_BAG, h.len(h.f(f, r)) == 0,
-                                                                    h.cls(h.f(f, r)) == CLS_LIST, h.own_obj(h.f(f, r)) == r)
+                                                                    h.cls(h.f(f, r)) == CLS_LIST, h.own_obj(h.f(f, r)) == r, h.own_fld(h.f(f, r)) == field_id(f))
                                                              for f in ('children', 'parents', 'compromised_by')],
                                                    h.f('children', r) != h.f('parents', r), h.f('children', r) != h.f('compromised_by', r),
                                                    h.f('parents', r) != h.f('compromised_by', r)))),
@@ -65,7 +66,7 @@ def install(reg: Registry):
             ('memo-updated', z3.Implies(z3.Not(was), z3.And(h.has(memo, VRef(me)), h.val(memo, VRef(me)) == VRef(r)))),
             ('memo-other-nodes', z3.Implies(z3.Not(was), FA([x], z3.Implies(z3.And(x >= 0, x < o.alloc, x != me, o.cls(x) != CLS_LIST, o.cls(x) != CLS_DICT, x != memo),
                                                                             z3.And(h.has(memo, VRef(x)) == o.has(memo, VRef(x)),
-                                                                                   h.val(memo, VRef(x)) == o.val(memo, VRef(x)))), [h.has(memo, VRef(x))]))),
+                                                                                   h.val(memo, VRef(x)) == o.val(memo, VRef(x)))), [h.has(memo, VRef(x)), h.val(memo, VRef(x))]))),
             ('old-objects-untouched', z3.And(*[FA([x], z3.Implies(z3.And(x >= 0, x < o.alloc, z3.BoolVal(True) if n not in DICT_ARRAYS else x != memo),
                                                                   z3.Select(h.arr[n], x) == z3.Select(o.arr[n], x)), [z3.Select(h.arr[n], x)])
                                                for n in h.arr if not z3.eq(h.arr[n], o.arr[n])], z3.BoolVal(True))),
